@@ -12,6 +12,8 @@ import Driver.Ops.C10
 import Driver.Ops.C12
 import Driver.Ops.Lifecycle
 import Driver.Ops.ConstraintCheck
+import Driver.Ops.PerL1
+import Driver.Ops.OpenType
 open Driver
 
 def handlers : List Handler := [
@@ -26,7 +28,9 @@ def handlers : List Handler := [
   Driver.Ops.C10.run,
   Driver.Ops.C12.run,
   Driver.Ops.Lifecycle.run,
-  Driver.Ops.ConstraintCheck.run
+  Driver.Ops.ConstraintCheck.run,
+  Driver.Ops.PerL1.run,
+  Driver.Ops.OpenType.run
 ]
 
 def step (line : String) : String :=
